@@ -179,3 +179,16 @@ reg('C17', True, 'other',
     'NOT decided: that every grammar string parses to the affine map it denotes (execution of a character state machine over '
     'an infinite language — outside static analysis as defined for this task); no proxy rule is armed for it.',
     'call-graph may-panic enumeration + dominator-based interval refinement of a guarded length')
+
+reg('C11', True, 'other',
+    'CLAUSES. Writer/reader agreement at MIR level for all 15 local types reachable from a state: keys passed to '
+    'serialize_field (values = same-position fields of self, declared count = number of fields) == keys the field visitor '
+    'accepts == keys visit_map requires; enum variant names written == accepted; newtype written from .0; SharedValue\'s manual '
+    'pair writes exactly serialize_f64(get_value(self)) and reads deserialize_f64 through a visitor whose visit_f64 is the '
+    'identity, wrapped by SharedValue::new which stores its argument. SVG: the format template of Transform2::as_svg is decoded '
+    'and each placeholder traced to a constant matrix index: matrix(a b c d e f) <- (0,0),(1,0),(0,1),(1,1),(0,2),(1,2); in both '
+    'state impls every #mol <use> is to_cartesian_isometry(p) or an item of periodic_images(p,1,false), p from '
+    'relative_positions(), and the #cell images are periodic_images(identity,1,true).',
+    'NOT decided: that serde_json prints every finite f64 in a form it parses back to the same bits (ryu/serde_json contract), '
+    'non-finite values, file-system effects, svg crate rendering.',
+    'sibling cross-check of generated writer/reader MIR + decoded format template + dataflow lineage of SVG placements')
